@@ -229,4 +229,433 @@ theorem forwardBarrier_noop {c : Ctx} (h : c.phase ≠ .mark) (p : Option Nat) (
 theorem forwardBarrierWeak_noop {c : Ctx} (h : c.phase ≠ .mark) (p : Option Nat) (ch : Nat) :
     c.forwardBarrierWeak p ch = c := by simp [Ctx.forwardBarrierWeak, h]
 
+/-! ### Arena level: what one mutator operation does -/
+
+/-- The running callback holds a pointer (of either kind) to `j`. -/
+def Held (a : Arena) (j : Nat) : Prop := ∃ p, p ∈ a.temps ∧ p.target = j
+
+/-- The op is a store (by any write path) of `v` into slot `idx` of object `j`. -/
+def Op.writes (op : Op) (j idx : Nat) (v : Slot) : Prop := ∃ path, op = Op.store path j idx v
+
+/-- Where a pointer newly held by the callback can come from: it was held already, a pointer of
+    the other kind to the same object was held (downgrade / upgrade / resurrect), it was read from
+    the root or from a held object, or it is the fresh allocation. -/
+def TempOK (a : Arena) (p : Ptr) : Prop :=
+  p ∈ a.temps ∨ Held a p.target ∨ some p ∈ a.root ∨
+    (∃ j o, Ptr.strong j ∈ a.temps ∧ a.ctx.heap.get j = some o ∧ some p ∈ o.slots) ∨
+    p.target = a.ctx.heap.size
+
+structure MutFacts (op : Op) (a a' : Arena) : Prop where
+  steps : a'.ctx.steps = a.ctx.steps
+  rest : a'.ctx.rest = a.ctx.rest
+  keep : ∀ j o, a.ctx.heap.get j = some o → ∃ o', a'.ctx.heap.get j = some o' ∧ o'.live = o.live ∧
+      o'.needsTrace = o.needsTrace ∧ cls o.color ≤ cls o'.color ∧
+      (a.ctx.phase ≠ .mark → o'.color = o.color) ∧ (¬ Held a j → o' = o) ∧
+      (o'.slots = o.slots ∨
+        ∃ idx v, op.writes j idx v ∧ o'.slots = o.slots.set idx v ∧ a.holdsSlot v = true)
+  fresh : ∀ j o', a'.ctx.heap.get j = some o' → a.ctx.heap.get j = none →
+      j = a.ctx.heap.size ∧ o'.color = .white ∧ o'.live = true ∧ (∀ p, some p ∈ o'.slots → p ∈ a.temps)
+  root : ∀ p, some p ∈ a'.root → some p ∈ a.root ∨ p ∈ a.temps
+  temps : ∀ p, p ∈ a'.temps → TempOK a p
+
+theorem MutFacts.ofRecol {op : Op} {a a' : Arena} (r : Recol (Held a) a.ctx a'.ctx)
+    (hph : a.ctx.phase ≠ .mark → ∀ j, a'.ctx.heap.get j = a.ctx.heap.get j)
+    (hroot : ∀ p, some p ∈ a'.root → some p ∈ a.root ∨ p ∈ a.temps)
+    (htemps : ∀ p, p ∈ a'.temps → TempOK a p) : MutFacts op a a' := by
+  refine ⟨r.steps, r.rest, ?_, ?_, hroot, htemps⟩
+  · intro j o ho
+    obtain ⟨o', ho', l, sl, n, cl, u⟩ := r.keep j o ho
+    refine ⟨o', ho', l, n, cl, ?_, u, Or.inl sl⟩
+    intro hne
+    have := hph hne j
+    rw [ho', ho] at this
+    cases this; rfl
+  · intro j o' ho' hn
+    obtain ⟨o, ho⟩ := r.noNew j o' ho'
+    rw [hn] at ho; cases ho
+
+/-- Nothing but (possibly) the set of held pointers changed. -/
+theorem MutFacts.ofSame {op : Op} {a a' : Arena} (hctx : a'.ctx = a.ctx) (hroot : a'.root = a.root)
+    (htemps : ∀ p, p ∈ a'.temps → TempOK a p) : MutFacts op a a' :=
+  MutFacts.ofRecol (by rw [hctx]; exact Recol.refl _) (fun _ j => by rw [hctx])
+    (fun p hp => Or.inl (by rw [← hroot]; exact hp)) htemps
+
+theorem MutFacts.refl (op : Op) (a : Arena) : MutFacts op a a :=
+  MutFacts.ofSame rfl rfl (fun _ hp => Or.inl hp)
+
+theorem tempOK_push {a b : Arena} {p : Ptr} (hb : b.temps = a.temps) (hp : TempOK a p) :
+    ∀ q, q ∈ (b.push p).temps → TempOK a q := by
+  intro q hq
+  rcases (b.push_spec p).2.2.2.2.2.2.1 q hq with hq | hq
+  · subst hq; exact hp
+  · exact Or.inl (by rw [← hb]; exact hq)
+
+theorem held_of_holds {a : Arena} {p : Ptr} {j : Nat} (h : a.holds p = true) (hj : p.target = j := by rfl) :
+    Held a j :=
+  ⟨p, (holds_iff a p).mp h, hj⟩
+
+theorem stepBody_mutFacts {a : Arena} (h : Inv a) (fin : Bool) (op : Op) (hop : op.isMutator = true) :
+    MutFacts op a (a.stepBody fin op).1 := by
+  have rf := MutFacts.refl op a
+  cases op with
+  | collect m k f o => simp [Op.isMutator] at hop
+  | dropArena => simp [Op.isMutator] at hop
+  | setPacing p =>
+    exact MutFacts.ofRecol (Recol.ofSame rfl rfl (fun _ => rfl)) (fun _ _ => rfl)
+      (fun _ hp => Or.inl hp) (fun _ hp => Or.inl hp)
+  | adjustDebt x =>
+    exact MutFacts.ofRecol (Recol.ofSame rfl rfl (fun _ => rfl)) (fun _ _ => rfl)
+      (fun _ hp => Or.inl hp) (fun _ hp => Or.inl hp)
+  | leave =>
+    simp only [Arena.stepBody]
+    split
+    · exact rf
+    · exact MutFacts.ofSame rfl rfl (fun _ hp => by cases hp)
+  | enter k =>
+    simp only [Arena.stepBody]
+    split
+    · exact rf
+    · cases k with
+      | mutate => exact MutFacts.ofSame rfl rfl (fun _ hp => Or.inl hp)
+      | mutateRoot =>
+        exact MutFacts.ofRecol (recol_rootBarrier _)
+          (fun _ j => by show a.ctx.rootBarrier.heap.get j = _; unfold Ctx.rootBarrier; split <;> rfl)
+          (fun _ hp => Or.inl hp) (fun _ hp => Or.inl hp)
+      | finalize =>
+        simp only
+        split
+        · exact MutFacts.ofSame rfl rfl (fun _ hp => Or.inl hp)
+        · exact rf
+  | alloc nt slots =>
+    simp only [Arena.stepBody]
+    split
+    · exact rf
+    · split
+      · exact rf
+      · split
+        · exact rf
+        · rename_i hcb hheld hleaf
+          have hheld' : slots.all a.holdsSlot = true := by simpa using hheld
+          have hmem : ∀ p, some p ∈ slots → p ∈ a.temps :=
+            fun p hp => (holds_iff a p).mp (all_holdsSlot hheld' p hp)
+          obtain ⟨e1, e2, _, _, _, _, _, _⟩ :=
+            ({ a with ctx := (a.ctx.link { color := .white, needsTrace := nt, live := true, slots := slots }).1 } : Arena).push_spec
+              (.strong (a.ctx.link { color := .white, needsTrace := nt, live := true, slots := slots }).2)
+          have hget : ∀ j, (a.ctx.link { color := .white, needsTrace := nt, live := true, slots := slots }).1.heap.get j =
+              if j = a.ctx.heap.size then some { color := .white, needsTrace := nt, live := true, slots := slots }
+              else a.ctx.heap.get j := by
+            intro j; simp [Ctx.link, Heap.get_set, Heap.fresh]
+          refine ⟨by rw [e1]; rfl, by rw [e1]; rfl, ?_, ?_, ?_, ?_⟩
+          · intro j o ho
+            have hj : j ≠ a.ctx.heap.size := by
+              intro he; rw [he] at ho
+              have := Heap.get_fresh a.ctx.heap
+              rw [Heap.fresh, ho] at this; cases this
+            exact ⟨o, by rw [e1, hget]; simp [hj, ho], rfl, rfl, Nat.le_refl _, fun _ => rfl, fun _ => rfl,
+              Or.inl rfl⟩
+          · intro j o' ho' hn
+            rw [e1, hget] at ho'
+            by_cases hj : j = a.ctx.heap.size
+            · simp only [hj, if_true, Option.some.injEq] at ho'
+              subst ho'
+              exact ⟨hj, rfl, rfl, hmem⟩
+            · simp only [hj, if_false] at ho'; rw [hn] at ho'; cases ho'
+          · intro p hp; rw [e2] at hp; exact Or.inl hp
+          · exact tempOK_push (a := a) rfl (Or.inr (Or.inr (Or.inr (Or.inr rfl))))
+  | readRoot i =>
+    simp only [Arena.stepBody]
+    split
+    · exact rf
+    · split
+      · exact rf
+      · exact rf
+      · rename_i p hp
+        exact MutFacts.ofSame (a.push_spec p).1 (a.push_spec p).2.1
+          (tempOK_push rfl (Or.inr (Or.inr (Or.inl (List.mem_of_getElem? hp)))))
+  | read p i =>
+    simp only [Arena.stepBody]
+    split
+    · exact rf
+    · rename_i hg
+      simp only [Bool.or_eq_true, Bool.not_eq_true', not_or, Bool.not_eq_false] at hg
+      split
+      · exact rf
+      · exact rf
+      · rename_i q hq
+        obtain ⟨o, ho, hmem⟩ := slotOf_some hq
+        exact MutFacts.ofSame (a.push_spec q).1 (a.push_spec q).2.1
+          (tempOK_push rfl (Or.inr (Or.inr (Or.inr (Or.inl ⟨p, o, (holds_iff a _).mp hg.2, ho, hmem⟩)))))
+  | downgrade p =>
+    simp only [Arena.stepBody]
+    split
+    · exact rf
+    · rename_i hg
+      simp only [Bool.or_eq_true, Bool.not_eq_true', not_or, Bool.not_eq_false] at hg
+      exact MutFacts.ofSame (a.push_spec _).1 (a.push_spec _).2.1
+        (tempOK_push rfl (Or.inr (Or.inl (held_of_holds hg.2))))
+  | upgrade w =>
+    simp only [Arena.stepBody]
+    split
+    · exact rf
+    · rename_i hg
+      simp only [Bool.or_eq_true, Bool.not_eq_true', not_or, Bool.not_eq_false] at hg
+      have hu : Recol (Held a) a.ctx (a.ctx.upgrade w).1 := recol_upgrade a.ctx w
+      have hheap : ∀ j, (a.ctx.upgrade w).1.heap.get j = a.ctx.heap.get j := by
+        intro j; unfold Ctx.upgrade
+        split
+        · simp
+        · split
+          · rfl
+          · split <;> rfl
+      generalize a.ctx.upgrade w = r at hu hheap ⊢
+      obtain ⟨c, ok⟩ := r
+      simp only
+      split
+      · obtain ⟨e1, e2, _⟩ := ({ a with ctx := c } : Arena).push_spec (.strong w)
+        exact MutFacts.ofRecol (by rw [e1]; exact hu) (fun _ j => by rw [e1]; exact hheap j)
+          (fun p hp => Or.inl (by rw [e2] at hp; exact hp))
+          (tempOK_push (a := a) rfl (Or.inr (Or.inl (held_of_holds hg.2))))
+      · exact MutFacts.ofRecol hu (fun _ j => hheap j) (fun _ hp => Or.inl hp) (fun _ hp => Or.inl hp)
+  | isDropped w =>
+    simp only [Arena.stepBody]
+    split
+    · exact rf
+    · split
+      · exact MutFacts.ofRecol (recol_fail _ _) (fun _ j => by simp) (fun _ hp => Or.inl hp)
+          (fun _ hp => Or.inl hp)
+      · exact rf
+  | isDead p =>
+    simp only [Arena.stepBody]
+    split
+    · exact rf
+    · split
+      · exact MutFacts.ofRecol (recol_fail _ _) (fun _ j => by simp) (fun _ hp => Or.inl hp)
+          (fun _ hp => Or.inl hp)
+      · exact rf
+  | resurrect p =>
+    simp only [Arena.stepBody]
+    split
+    · exact rf
+    · rename_i hg
+      simp only [Bool.or_eq_true, Bool.not_eq_true', not_or, Bool.not_eq_false, decide_eq_true_eq,
+        Decidable.not_not] at hg
+      have hmark : a.ctx.phase = .mark := h.finMark hg.1
+      cases p with
+      | strong t =>
+        exact MutFacts.ofRecol (recol_resurrect _ _ (held_of_holds hg.2)) (fun hne => absurd hmark hne)
+          (fun _ hp => Or.inl hp) (fun _ hp => Or.inl hp)
+      | weak t =>
+        simp only
+        split
+        · exact MutFacts.ofRecol (recol_fail _ _) (fun _ j => by simp) (fun _ hp => Or.inl hp)
+            (fun _ hp => Or.inl hp)
+        · split
+          · obtain ⟨e1, e2, _⟩ := ({ a with ctx := a.ctx.resurrect t } : Arena).push_spec (.strong t)
+            exact MutFacts.ofRecol (by rw [e1]; exact recol_resurrect _ _ (held_of_holds hg.2))
+              (fun hne => absurd hmark hne) (fun p hp => Or.inl (by rw [e2] at hp; exact hp))
+              (tempOK_push (a := a) rfl (Or.inr (Or.inl (held_of_holds hg.2))))
+          · exact rf
+  | barrier b =>
+    simp only [Arena.stepBody]
+    split
+    · exact rf
+    · cases b with
+      | bb p c =>
+        cases c with
+        | none =>
+          simp only
+          split
+          · exact rf
+          · rename_i hg
+            have hp : a.holds (.strong p) = true := by simpa using hg
+            exact MutFacts.ofRecol (recol_backwardBarrier a.ctx p none (held_of_holds hp))
+              (fun hne j => by show (a.ctx.backwardBarrier p none).heap.get j = _; rw [backwardBarrier_noop hne])
+              (fun _ hp => Or.inl hp) (fun _ hp => Or.inl hp)
+        | some c =>
+          simp only
+          split
+          · exact rf
+          · rename_i hg
+            simp only [Bool.or_eq_true, Bool.not_eq_true', not_or, Bool.not_eq_false] at hg
+            exact MutFacts.ofRecol (recol_backwardBarrier a.ctx p (some c) (held_of_holds hg.1))
+              (fun hne j => by show (a.ctx.backwardBarrier p (some c)).heap.get j = _; rw [backwardBarrier_noop hne])
+              (fun _ hp => Or.inl hp) (fun _ hp => Or.inl hp)
+      | bbw p c =>
+        simp only
+        split
+        · exact rf
+        · rename_i hg
+          simp only [Bool.or_eq_true, Bool.not_eq_true', not_or, Bool.not_eq_false] at hg
+          exact MutFacts.ofRecol (recol_backwardBarrierWeak a.ctx p c (held_of_holds hg.1))
+            (fun hne j => by show (a.ctx.backwardBarrierWeak p c).heap.get j = _; rw [backwardBarrierWeak_noop hne])
+            (fun _ hp => Or.inl hp) (fun _ hp => Or.inl hp)
+      | fb p c =>
+        cases p with
+        | none =>
+          simp only
+          split
+          · exact rf
+          · rename_i hg
+            have hc : a.holds (.strong c) = true := by simpa using hg
+            exact MutFacts.ofRecol (recol_forwardBarrier a.ctx none c (held_of_holds hc))
+              (fun hne j => by show (a.ctx.forwardBarrier none c).heap.get j = _; rw [forwardBarrier_noop hne])
+              (fun _ hp => Or.inl hp) (fun _ hp => Or.inl hp)
+        | some p =>
+          simp only
+          split
+          · exact rf
+          · rename_i hg
+            simp only [Bool.or_eq_true, Bool.not_eq_true', not_or, Bool.not_eq_false] at hg
+            exact MutFacts.ofRecol (recol_forwardBarrier a.ctx (some p) c (held_of_holds hg.2))
+              (fun hne j => by show (a.ctx.forwardBarrier (some p) c).heap.get j = _; rw [forwardBarrier_noop hne])
+              (fun _ hp => Or.inl hp) (fun _ hp => Or.inl hp)
+      | fbw p c =>
+        cases p with
+        | none =>
+          simp only
+          split
+          · exact rf
+          · rename_i hg
+            have hc : a.holds (.weak c) = true := by simpa using hg
+            exact MutFacts.ofRecol (recol_forwardBarrierWeak a.ctx none c (held_of_holds hc))
+              (fun hne j => by show (a.ctx.forwardBarrierWeak none c).heap.get j = _; rw [forwardBarrierWeak_noop hne])
+              (fun _ hp => Or.inl hp) (fun _ hp => Or.inl hp)
+        | some p =>
+          simp only
+          split
+          · exact rf
+          · rename_i hg
+            simp only [Bool.or_eq_true, Bool.not_eq_true', not_or, Bool.not_eq_false] at hg
+            exact MutFacts.ofRecol (recol_forwardBarrierWeak a.ctx (some p) c (held_of_holds hg.2))
+              (fun hne j => by show (a.ctx.forwardBarrierWeak (some p) c).heap.get j = _; rw [forwardBarrierWeak_noop hne])
+              (fun _ hp => Or.inl hp) (fun _ hp => Or.inl hp)
+  | store path p i v =>
+    simp only [Arena.stepBody]
+    split
+    · exact rf
+    · rename_i hg
+      simp only [Bool.or_eq_true, Bool.not_eq_true', not_or, Bool.not_eq_false] at hg
+      have hp : a.holds (.strong p) = true := hg.1.2
+      have hv : a.holdsSlot v = true := hg.2
+      have hheld : Held a p := held_of_holds hp
+      split
+      · exact rf
+      · split
+        · exact rf
+        · -- the store itself: a barrier (before or after, or none) and one `setSlot`
+          have key : ∀ (c1 c2 : Ctx), Recol (Held a) a.ctx c1 →
+              (a.ctx.phase ≠ .mark → ∀ j, c1.heap.get j = a.ctx.heap.get j) →
+              c2.steps = c1.steps → c2.rest = c1.rest →
+              (∀ j, c2.heap.get j = match c1.heap.get p with
+                | none => c1.heap.get j
+                | some o => if j = p then some { o with slots := o.slots.set i v } else c1.heap.get j) →
+              (∀ cover, MutFacts (.store path p i v) a { a with ctx := c2, cover := cover }) ∧
+              (∀ j o', c2.heap.get j = some o' → ∃ o, a.ctx.heap.get j = some o) := by
+            intro c1 c2 r hph hst hre hget
+            have noNew : ∀ j o', c2.heap.get j = some o' → ∃ o, a.ctx.heap.get j = some o := by
+              intro j o' ho2
+              rw [hget] at ho2
+              have : ∃ o1, c1.heap.get j = some o1 := by
+                split at ho2
+                · exact ⟨o', ho2⟩
+                · rename_i op hop
+                  by_cases hj : j = p
+                  · subst hj; exact ⟨op, hop⟩
+                  · simp only [hj, if_false] at ho2; exact ⟨o', ho2⟩
+              obtain ⟨o1, ho1⟩ := this
+              exact r.noNew j o1 ho1
+            refine ⟨fun cover => ?_, noNew⟩
+            refine ⟨hst.trans r.steps, hre.trans r.rest, ?_, ?_, fun _ hq => Or.inl hq, fun _ hq => Or.inl hq⟩
+            · intro j o ho
+              obtain ⟨o1, ho1, l, sl, n, cl, u⟩ := r.keep j o ho
+              have hcol : a.ctx.phase ≠ .mark → o1.color = o.color := by
+                intro hne
+                have := hph hne j
+                rw [ho1, ho] at this; cases this; rfl
+              by_cases hj : j = p
+              · subst hj
+                refine ⟨{ o1 with slots := o1.slots.set i v }, ?_, l, n, cl, hcol,
+                  fun hn => absurd hheld hn, Or.inr ⟨i, v, ⟨path, rfl⟩, by rw [sl], hv⟩⟩
+                show c2.heap.get j = _
+                rw [hget, ho1]; simp
+              · refine ⟨o1, ?_, l, n, cl, hcol, u, Or.inl sl⟩
+                show c2.heap.get j = _
+                rw [hget]
+                split
+                · exact ho1
+                · simp [hj, ho1]
+            · intro j o' ho' hn
+              obtain ⟨o, ho⟩ := noNew j o' ho'
+              rw [hn] at ho; cases ho
+          have setget : ∀ (c1 : Ctx) j, (Arena.setSlot c1 p i v).heap.get j = match c1.heap.get p with
+                | none => c1.heap.get j
+                | some o => if j = p then some { o with slots := o.slots.set i v } else c1.heap.get j := by
+            intro c1 j
+            cases hc : c1.heap.get p <;> simp [Arena.setSlot, hc]
+          have setsteps : ∀ (c1 : Ctx), (Arena.setSlot c1 p i v).steps = c1.steps := by
+            intro c1; unfold Arena.setSlot; split <;> simp
+          have setrest : ∀ (c1 : Ctx), (Arena.setSlot c1 p i v).rest = c1.rest := by
+            intro c1; unfold Arena.setSlot; split <;> simp
+          cases path with
+          | write =>
+            exact (key (a.ctx.backwardBarrier p none) _ (recol_backwardBarrier _ _ _ hheld)
+              (fun hne j => by rw [backwardBarrier_noop hne]) (setsteps _) (setrest _) (setget _)).1 _
+          | raw =>
+            simp only
+            split
+            · exact rf
+            · exact (key a.ctx _ (Recol.refl _) (fun _ _ => rfl) (setsteps _) (setrest _) (setget _)).1 _
+          | storeThenBarrier =>
+            -- barrier after the store: compose the other way round
+            have r2 : Recol (Held a) (Arena.setSlot a.ctx p i v) ((Arena.setSlot a.ctx p i v).backwardBarrier p none) :=
+              recol_backwardBarrier _ _ _ hheld
+            obtain ⟨m1', nn1⟩ := key a.ctx (Arena.setSlot a.ctx p i v) (Recol.refl _) (fun _ _ => rfl) (setsteps _)
+              (setrest _) (setget _)
+            have m1 := m1' a.cover
+            have hph1 : (Arena.setSlot a.ctx p i v).phase = a.ctx.phase := by
+              unfold Arena.setSlot; split <;> simp
+            refine ⟨r2.steps.trans m1.steps, r2.rest.trans m1.rest, ?_, ?_, fun _ hq => Or.inl hq,
+              fun _ hq => Or.inl hq⟩
+            · intro j o ho
+              obtain ⟨o1, ho1, l, n, cl, hc, u, sl⟩ := m1.keep j o ho
+              obtain ⟨o2, ho2, l2, sl2, n2, cl2, u2⟩ := r2.keep j o1 ho1
+              refine ⟨o2, ho2, l2.trans l, n2.trans n, Nat.le_trans cl cl2, ?_, ?_, ?_⟩
+              · intro hne
+                have : (Arena.setSlot a.ctx p i v).backwardBarrier p none = Arena.setSlot a.ctx p i v :=
+                  backwardBarrier_noop (by rw [hph1]; exact hne) _ _
+                have ho2' : (Arena.setSlot a.ctx p i v).heap.get j = some o2 := by rw [← this]; exact ho2
+                have ho1' : (Arena.setSlot a.ctx p i v).heap.get j = some o1 := ho1
+                rw [ho1'] at ho2'; cases ho2'
+                exact hc hne
+              · intro hn; rw [u2 hn]; exact u hn
+              · rw [sl2]; exact sl
+            · intro j o' ho' hn
+              obtain ⟨o1, ho1⟩ := r2.noNew j o' ho'
+              obtain ⟨o, ho⟩ := nn1 j o1 ho1
+              rw [hn] at ho; cases ho
+  | rootStore i v =>
+    simp only [Arena.stepBody]
+    split
+    · exact rf
+    · rename_i hg
+      simp only [Bool.or_eq_true, Bool.not_eq_true', not_or, Bool.not_eq_false, decide_eq_true_eq,
+        Decidable.not_not] at hg
+      refine MutFacts.ofRecol (Recol.refl _) (fun _ _ => rfl) ?_ (fun _ hq => Or.inl hq)
+      intro q hq
+      rcases mem_set_slot hq with hq | hq
+      · exact Or.inl hq
+      · right
+        have := hg.1.2
+        rw [hq] at this
+        exact (holds_iff a q).mp this
+
+theorem step_mutFacts {a : Arena} (h : Inv a) (op : Op) (hop : op.isMutator = true) :
+    MutFacts op a (a.step op).1 := by
+  have hnot : (!a.alive) = false := by rw [h.alive]; rfl
+  unfold Arena.step
+  rw [hnot]
+  simp only [Bool.false_eq_true, if_false]
+  have m := stepBody_mutFacts h.unmark a.marked op hop
+  exact ⟨m.steps, m.rest, m.keep, m.fresh, m.root, m.temps⟩
+
 end GcArena
